@@ -323,6 +323,7 @@ var props = map[string]*propDef{
 		Harnesses: []harnessDef{
 			{Name: "chpool.VerifC11Handles", Cfg: allowLeak},
 			{Name: "chpool.VerifC11Expiry", Cfg: allowLeak},
+			{Name: "chpool.VerifC11History", Cfg: allowLeak, Quick: map[string]int{"maxsteps": 4}, Thorough: map[string]int{"maxsteps": 6}},
 		},
 	},
 }
